@@ -42,6 +42,7 @@ type OpaqueV struct {
 type Prov struct {
 	Fn   string
 	Args []Value
+	J    *JV // Fn=="json": these bytes are the serialisation of J
 }
 
 type AtomKind int
